@@ -293,13 +293,13 @@ MANDATORY = ["- -", "- - -", "- - - -", "CD -", "cr -", "CD - -", "C - -", "CD C
              "u -", "u - -", "u u", "Cu -", "uD C", "q -", "ms -", "k -", "K -", "n -", "n u"]
 
 def conc_cases(rng, thorough):
-    cap_fixed = 8000 if thorough else 2000
+    cap_fixed = 8000 if thorough else 1500
     out = ["conc 100000 dfs " + p for p in MANDATORY]
     fixed = ["CUD cr Ux", "CC UD", "x r D D", "uU u -"]
     if thorough: fixed += ["CDD CDD CDD", "CcDD crU", "U U U U", "CD CD D D", "u u u", "Cu qr k", "uu Cu -"]
     out += ["conc %d dfs %s" % (cap_fixed, p) for p in fixed]
     budget = 40000 if thorough else 2500
-    nrand = 60 if thorough else 12
+    nrand = 60 if thorough else 10
     for k in range(nrand):
         nt = 2 + rng.below(3)
         progs = [gen_prog(rng, 5 if nt == 2 else 3) for _ in range(nt)]
@@ -329,12 +329,12 @@ if ck.replay:
 else:
     ex = gen_exhaustive(3 if ck.thorough() else 2)
     nexh = len(ex); seq_cases += ex
-    N = 60000 if ck.thorough() else 4000
+    N = 60000 if ck.thorough() else 3000
     for k in range(N):
         seq_cases.append(gen_seq(rng, 8 + rng.below(50), k % 5))
     cc_cases += conc_cases(rng, ck.thorough())
     list_cases += list_exhaustive(3 if ck.thorough() else 2)
-    for k in range(20000 if ck.thorough() else 1500): list_cases.append(gen_list(rng, 6 + rng.below(30)))
+    for k in range(20000 if ck.thorough() else 1000): list_cases.append(gen_list(rng, 6 + rng.below(30)))
 casefile = os.path.join(ck.scratch, "seq_cases.txt")
 open(casefile, "w").write("\n".join(seq_cases) + ("\n" if seq_cases else ""))
 
